@@ -7,7 +7,7 @@
 
 use std::{
     cell::Cell,
-    sync::atomic::{AtomicUsize, Ordering::{Acquire, Release}},
+    sync::atomic::{AtomicPtr, Ordering::{Acquire, Release}},
 };
 
 /// the thread may be preempted here
@@ -15,8 +15,8 @@ pub const KIND_POINT: u32 = 0;
 /// the thread is inside a retry / spin loop: somebody else has to run for it to make progress
 pub const KIND_SPIN:  u32 = 1;
 
-static HOOK: AtomicUsize = AtomicUsize::new(0);
-static NOTE: AtomicUsize = AtomicUsize::new(0);
+static HOOK: AtomicPtr<()> = AtomicPtr::new(std::ptr::null_mut());
+static NOTE: AtomicPtr<()> = AtomicPtr::new(std::ptr::null_mut());
 
 thread_local! {
     static SEQUENCE_ORIGIN: Cell<Option<u32>> = const { Cell::new(None) };
@@ -24,14 +24,14 @@ thread_local! {
 
 /// Installs (or removes) the callback receiving `(site, kind)` for every hook site reached by any thread
 pub fn install(hook: Option<fn(u32, u32)>) {
-    HOOK.store(hook.map(|f| f as usize).unwrap_or(0), Release);
+    HOOK.store(hook.map(|f| f as *mut ()).unwrap_or(std::ptr::null_mut()), Release);
 }
 
 #[inline(always)]
 fn call(site: u32, kind: u32) {
     let hook = HOOK.load(Acquire);
-    if hook != 0 {
-        let hook: fn(u32, u32) = unsafe { std::mem::transmute::<usize, fn(u32, u32)>(hook) };
+    if !hook.is_null() {
+        let hook: fn(u32, u32) = unsafe { std::mem::transmute::<*mut (), fn(u32, u32)>(hook) };
         hook(site, kind);
     }
 }
@@ -51,15 +51,15 @@ pub fn spin(site: u32) {
 /// Installs (or removes) the callback receiving `(site, value)` observations: values the code based a decision on
 /// (a sampled length, the stream id it is about to wake) -- so a monitor can tell *why* something happened
 pub fn install_note(hook: Option<fn(u32, u64)>) {
-    NOTE.store(hook.map(|f| f as usize).unwrap_or(0), Release);
+    NOTE.store(hook.map(|f| f as *mut ()).unwrap_or(std::ptr::null_mut()), Release);
 }
 
 /// "this is the value I am deciding on"
 #[inline(always)]
 pub fn note(site: u32, value: u64) {
     let hook = NOTE.load(Acquire);
-    if hook != 0 {
-        let hook: fn(u32, u64) = unsafe { std::mem::transmute::<usize, fn(u32, u64)>(hook) };
+    if !hook.is_null() {
+        let hook: fn(u32, u64) = unsafe { std::mem::transmute::<*mut (), fn(u32, u64)>(hook) };
         hook(site, value);
     }
 }
